@@ -223,6 +223,24 @@ CLAIMED = {
                 "nprocs / num_aggrs_per_node); a parsed hint with no table entry is reported.",
         "design_ref": "DESIGN.md section 3 / C10",
     },
+    "C06": {
+        "technique": "dominance / reachability rules and branch-structure decision-table enumeration on ncmpio__enddef's "
+                     "CFG, last-assignment typestate by path-sensitive abstract interpretation of compute_var_shape, and "
+                     "bounded evaluation of the integer slices of move_file_block / move_record_vars / move_fixed_vars by "
+                     "the analyser's own interpreter over the extracted CFG (block moves replayed on a labelled byte map)",
+        "text": "Decides structural clauses of 'redefinition preserves existing data': every data move precedes the header "
+                "write and the fill of new variables, the record section moves before the fixed-size variables; the "
+                "decision table of the move triggers (extent grew / record start grew / record size grew) has the needed "
+                "move on every path; NC_begins keeps the never-shrink repairs; after open begin_rec/begin_var mirror "
+                "the file's own offsets on every successful path; and, for bounded configurations (1..5 processes, "
+                "block sizes around multiples of nprocs and of the 64 MiB unit; small record/fixed layouts), the chunk "
+                "partition of move_file_block tiles the block, goes tail first with one displacement, never overlaps "
+                "unmoved data, is collectively consistent, and the move sequences put every old byte at its new offset. "
+                "Value preservation over all layouts/histories and the abort clause are NOT decided.",
+        "note": "The two R8 rules are bounded (not exhaustive) evaluations of arithmetic slices, not executions of the "
+                "library; MPI-IO is assumed to deliver the requested counts.",
+        "design_ref": "DESIGN.md section 3 / C06",
+    },
 }
 
 NA_REASON = {
